@@ -33,7 +33,7 @@ def make_replay(prop, ob, ctx):
         rp['replayed_on_real_code'] = ok
         rp['replay_summary'] = summary
     name = '%s-%s.json' % (prop, common.sha(ob['name'])[:10])
-    path = os.path.join(common.VERIF, 'replays', name)
+    path = os.path.join(common.OUT, 'replays', name)
     json.dump(rp, open(path, 'w'), indent=1)
     return {'path': path, 'has_input': rp['input'] is not None and rp.get('replayed_on_real_code', False), 'summary': summary}
 
@@ -53,12 +53,22 @@ _built = False
 
 
 def build():
-    """(Re)build the witness binary against /repo's current working tree."""
-    global _built
+    """(Re)build the witness binary against the repository's current working tree (common.REPO)."""
+    global _built, VW
     if _built:
         return os.path.exists(VW)
-    r = common.run(['cargo', 'build', '--offline', '--release', '--target-dir', os.path.join(common.BUILD, 'witness-target')],
-                   cwd=os.path.join(common.VERIF, 'witness'), timeout=600)
+    src = os.path.join(common.VERIF, 'witness')
+    tdir = os.path.join(common.BUILD, 'witness-target')
+    if os.path.realpath(common.REPO) != '/repo':
+        # development aid (VERIF_REPO=<scratch worktree>): same crate with the path dependencies redirected
+        import shutil
+        dst = os.path.join(common.scratch(), 'witness')
+        shutil.copytree(src, dst, dirs_exist_ok=True)
+        ct = open(os.path.join(dst, 'Cargo.toml')).read().replace('/repo/', common.REPO.rstrip('/') + '/')
+        open(os.path.join(dst, 'Cargo.toml'), 'w').write(ct)
+        src, tdir = dst, os.path.join(common.scratch(), 'witness-target')
+        VW = os.path.join(tdir, 'release', 'vw')
+    r = common.run(['cargo', 'build', '--offline', '--release', '--target-dir', tdir], cwd=src, timeout=600)
     _built = True
     return r['rc'] == 0 and os.path.exists(VW)
 
